@@ -36,6 +36,9 @@ pub struct Slot {
 
 #[derive(Default)]
 pub struct Mux {
+    /// substreams handed out by poll_outbound / poll_inbound on request of the driver
+    pub outbound_ready: VecDeque<vcommon::pipe::PipeEnd>,
+    pub inbound_ready: VecDeque<vcommon::pipe::PipeEnd>,
     pub fail: bool,
     pub close_called: bool,
     pub dropped: bool,
@@ -115,6 +118,23 @@ impl World {
             return false;
         }
         x.fail = true;
+        if let Some(w) = x.waker.take() {
+            w.wake();
+        }
+        true
+    }
+    /// make a substream available to the muxer's poll_outbound (out = true) or poll_inbound
+    pub fn offer_substream(&self, m: usize, out: bool, end: vcommon::pipe::PipeEnd) -> bool {
+        let mut g = self.0.lock().unwrap();
+        let Some(x) = g.muxers.get_mut(m) else { return false };
+        if x.dropped || x.fail {
+            return false;
+        }
+        if out {
+            x.outbound_ready.push_back(end);
+        } else {
+            x.inbound_ready.push_back(end);
+        }
         if let Some(w) = x.waker.take() {
             w.wake();
         }
@@ -298,13 +318,25 @@ impl futures::io::AsyncWrite for NoStream {
 }
 
 impl StreamMuxer for PuppetMuxer {
-    type Substream = NoStream;
+    type Substream = vcommon::pipe::PipeEnd;
     type Error = io::Error;
 
-    fn poll_inbound(self: Pin<&mut Self>, _cx: &mut Context<'_>) -> Poll<Result<Self::Substream, Self::Error>> {
+    fn poll_inbound(self: Pin<&mut Self>, cx: &mut Context<'_>) -> Poll<Result<Self::Substream, Self::Error>> {
+        let mut g = self.world.0.lock().unwrap();
+        let m = &mut g.muxers[self.idx];
+        if let Some(s) = m.inbound_ready.pop_front() {
+            return Poll::Ready(Ok(s));
+        }
+        m.waker = Some(cx.waker().clone());
         Poll::Pending
     }
-    fn poll_outbound(self: Pin<&mut Self>, _cx: &mut Context<'_>) -> Poll<Result<Self::Substream, Self::Error>> {
+    fn poll_outbound(self: Pin<&mut Self>, cx: &mut Context<'_>) -> Poll<Result<Self::Substream, Self::Error>> {
+        let mut g = self.world.0.lock().unwrap();
+        let m = &mut g.muxers[self.idx];
+        if let Some(s) = m.outbound_ready.pop_front() {
+            return Poll::Ready(Ok(s));
+        }
+        m.waker = Some(cx.waker().clone());
         Poll::Pending
     }
     fn poll_close(self: Pin<&mut Self>, _cx: &mut Context<'_>) -> Poll<Result<(), Self::Error>> {
